@@ -1,0 +1,6 @@
+//go:build !verif
+
+package types
+
+// SimYield is a no-op outside the verification build (see verif_yield.go).
+func SimYield(string) {}
